@@ -112,10 +112,27 @@ def run_cases(ctx, seeds, label):
     return results
 
 
+def _stall_confirmed(seed):
+    """A case that ended because a real thread did not come back within the driver's wall-clock wait is run again, twice:
+    the schedule of a case is deterministic, so a deadlock shows every time, a machine that stalled for seconds does not."""
+    S = Q.load_impl()
+    for _ in range(2):
+        try:
+            r = Q.CaseRun(S, seed).run()
+        except Exception:
+            return True
+        if not r.meta.get('aborted'):
+            return False
+    return True
+
+
 def report_problems(ctx, results):
     n = 0
     for r in results:
         if r.get('problems'):
+            if r.get('meta', {}).get('aborted') and not _stall_confirmed(r['seed']):
+                ctx.monitor['wall_clock_stalls_not_reproduced'] = ctx.monitor.get('wall_clock_stalls_not_reproduced', 0) + 1
+                continue
             n += 1
             if n <= 3:
                 ctx.violation('C19 monitor on the implementation: ' + r['problems'][0],
@@ -403,6 +420,9 @@ def search(ctx):
         except Exception:
             continue
         if r.problems:
+            if r.meta.get('aborted') and not _stall_confirmed(base + i):
+                ctx.monitor['wall_clock_stalls_not_reproduced'] = ctx.monitor.get('wall_clock_stalls_not_reproduced', 0) + 1
+                continue
             ctx.violation('C19 monitor on the implementation: ' + r.problems[0],
                           {'kind': 'schedule_case', 'case_seed': base + i, 'problems': r.problems, 'meta': r.meta},
                           found_input=True)
